@@ -213,3 +213,17 @@ Print Assumptions C14_snake_idempotent.
 Print Assumptions C14_pascal_idempotent_refuted.
 Print Assumptions C14_pascal_idempotent_partial.
 Print Assumptions C14_method_names_not_injective.
+
+(* ---- whole pipeline: whatever the whole generator accepts passes the name and reference validation, and
+   (cfg-free) is outside the property's reject class ---- *)
+From DD Require Pipeline PipelineProofs.
+Theorem C14_whole_pipeline_accept : forall fuel dev_name d0,
+  Pipeline.pipeline_result fuel dev_name d0 = "ok"%string ->
+  name_ref_check d0 = true /\ (cfg_free d0 -> ~ C14_spec_reject d0).
+Proof.
+  intros fuel dev_name d0 H. apply PipelineProofs.pipeline_result_ok_iff in H. split.
+  - exact (PipelineProofs.pipeline_accept_name_ref _ _ _ H).
+  - intros Hf. exact (PipelineProofs.pipeline_accept_not_c14_reject _ _ _ Hf H).
+Qed.
+
+Print Assumptions C14_whole_pipeline_accept.
